@@ -201,9 +201,12 @@ class Evaluator:
     (tree sequence, weights, f); the linear window accounting is then done on their
     float images (nan = undefined, sticky)."""
 
-    def __init__(self, counts, f, m):
+    def __init__(self, counts, f, m, selfcheck=False):
         self.counts, self.m = counts, m
         self._atoms = {}
+        self._exact = {}
+        self.selfcheck = selfcheck
+        self._checked = set()
         memo = {}
 
         def fm(x):  # the summary function is pure: evaluate once per distinct argument
@@ -261,9 +264,38 @@ class Evaluator:
         if span_normalise:
             out = out / (w[1:] - w[:-1])[:, None]
         out = out.reshape((len(w) - 1,) + shape)
+        if self.selfcheck:
+            self._selfcheck(out, windows, mode, polarised, span_normalise, present_only)
         if uflat is not None:
             out[..., uflat] = np.nan
         return out
+
+    def _selfcheck(self, out, windows, mode, polarised, span_normalise, present_only):
+        """Once per (mode, polarised, span_normalise, number of windows): the float window
+        accounting must agree with the exact list-based definition above."""
+        import numpy as np
+        key = (mode, polarised, span_normalise, present_only, len(windows))
+        if key in self._checked:
+            return
+        self._checked.add(key)
+        akey = (mode, polarised, present_only)
+        if akey not in self._exact:
+            if mode == "site":
+                self._exact[akey] = site_atoms(self.counts, self.f, self.m, polarised, present_only)
+            elif mode == "branch":
+                self._exact[akey] = branch_atoms(self.counts, self.f, self.m, polarised)
+            else:
+                self._exact[akey] = node_atoms(self.counts, self.f, self.m, polarised)
+        a = self._exact[akey]
+        if mode == "site":
+            ex = windowed_sites(a, windows, self.m, span_normalise)
+        elif mode == "branch":
+            ex = windowed_intervals(a, windows, self.m, span_normalise)
+        else:
+            ex = windowed_nodes(a, windows, self.m, self.counts.rts.N, span_normalise)
+        vals, und = _np_vals(ex)
+        ok = np.abs(vals - out) <= 1e-12 * np.maximum(1.0, np.abs(vals))
+        assert (ok | und).all(), "reference model: float window accounting differs from exact"
 
 
 def indicator_weights(samples, sample_sets):
